@@ -19,6 +19,11 @@ def build(profile="dev"):
         cmd.append("--release")
     rc, out, err, secs, to = run(cmd, timeout=3600, cwd=REPLAY_DIR)
     if rc != 0:
+        # the kernel (`fn`) mode calls arithmetic traits directly; a change of their signatures must not take the
+        # program (`run`) mode down with it
+        log("replay build failed, retrying without the `kernels` feature:\n" + err[-1500:])
+        rc, out, err, secs, to = run(cmd + ["--no-default-features"], timeout=3600, cwd=REPLAY_DIR)
+    if rc != 0:
         log("replay build failed:\n" + err[-3000:])
         _bin[profile] = None
         return None
